@@ -75,6 +75,8 @@ class Builder:
             e["stderr"] = {"mode": rng.choice(["eio", "closed", "epipe", "enospc", "none"]), "at": rng.randint(1, 5)}
         if "interrupt" in allow and rng.random() < 0.5:
             e["interrupt"] = {"exc": rng.choice(["KeyboardInterrupt", "MemoryError"]), "frac": round(rng.uniform(0.02, 0.98), 3)}
+            if rng.random() < 0.12:
+                e["interrupt"]["all"] = True  # enumerate every crash point of this call
         return e or None
 
 
@@ -742,7 +744,7 @@ class PurityScenario:
         )
 
     def required_probes(self, tier):
-        return ["fault_landed_inside_fit"]
+        return ["fault_landed_inside_fit", "crash_points_enumerated_for_a_call"]
 
     def real_components(self):
         return ["every public estimator and function of skmatter (unmodified, from /repo/src)", "numpy/scipy/scikit-learn/joblib/tqdm", "pickle"]
